@@ -60,3 +60,5 @@ def run(ctx):
     _b.check_updates(ctx, 'C10.RU', 'C10')
     from .. import boundaries as _b
     _b.check_guards(ctx, 'C10.RG', 'C10')
+    from .. import boundaries as _b
+    _b.check_amounts(ctx, 'C10.RA', 'C10')
